@@ -19,12 +19,14 @@ ResetAll ==
     /\ holds' = [t \in Thr |-> <<>>] /\ results' = [t \in Thr |-> <<>>]
     /\ fullSeen' = [t \in Thr |-> FALSE] /\ lockedAt' = 0 - 1
     /\ started' = [t \in Thr |-> 0] /\ nstart' = 0
+    /\ otherSeen' = [t \in Thr |-> FALSE] /\ badUnlock' = FALSE
 
 Atom(e) ==
     LET t == e.t IN
     CASE e.role = "gc_ld" -> /\ e.ord = Ord.gc_ld
                              /\ \/ pc[t] = "a_gc" /\ AGc(t) /\ (e.rd # LOCK => cur'[t] = e.rd) /\ (e.rd = LOCK) = (pc'[t] = "idle")
                                 \/ pc[t] = "l_gc" /\ LGc(t) /\ g0'[t] = e.rd
+                                   /\ (mode[t] = "obs" => (e.rd = LOCK) = (pc'[t] = "idle"))
       [] e.role = "cell_acq" -> /\ e.ord = Ord.acq_s /\ e.ordf = Ord.acq_f
                                 /\ pc[t] = "a_cell" /\ scan[t] = e.slot /\ ACell(t) /\ e.ok = (pc'[t] = "a_inc")
       [] e.role = "inc" -> /\ (e.lk = 0 => e.ord = Ord.inc)
@@ -40,10 +42,12 @@ Atom(e) ==
       [] e.role = "cnt_ld" -> e.ord = Ord.cnt_ld /\ pc[t] = "l_cnt" /\ scan[t] = e.slot /\ LCnt(t)
                               /\ cnt'[t] = cnt[t] + (IF e.rd # 0 THEN 1 ELSE 0)
       [] e.role = "lock" -> /\ e.ord = Ord.lock_s /\ e.ordf = Ord.lock_f /\ pc[t] = "l_cas" /\ LCas(t)
-                            /\ e.ok = (pc'[t] = "idle")
+                            /\ e.ok = (pc'[t] = "idle" /\ results'[t][Len(results'[t])] = <<"rel", "Locked">> /\ e.rd = g0[t])
+                            /\ (~e.ok => IF LockRetries THEN pc'[t] = "l_gc"
+                                          ELSE results'[t][Len(results'[t])] = <<"rel", IF e.rd = LOCK THEN "Locked" ELSE "Unlocked">>)
       [] OTHER -> FALSE
 
-\* LDecide is a local step; a release with nothing held is skipped by the driver without a call record
+\* LDecide is a local step (for the observer "obs" it is the return of the count); a release with nothing held is skipped by the driver without a call record
 SkipRelease(t) == pc[t] = "idle" /\ ip[t] <= Len(Prog[t]) /\ Prog[t][ip[t]] # "acq" /\ holds[t] = <<>> /\ Start(t)
 Silent == l <= NRec /\ (\E t \in Thr : LDecide(t) \/ SkipRelease(t)) /\ Monitor /\ UNCHANGED l
 
